@@ -2,7 +2,7 @@
 # the oracle keys mapped to it in tools/simrun.py
 _X = ('xfer', 24, 400)
 _MTU = ('mtu', 200, 4000)
-_H = ('hostile', 40, 1500)
+_H = ('hostile', 120, 1500)
 _Z = ('zrtt', 60, 1500)
 PROPS = {
     'C17': dict(sim=[_Z], modelled='0-RTT end-to-end (system simulator, scenario zrtt): resumption with early data written before the handshake completes, acceptance or rejection by the server (fresh TLS state), loss masks on the first flights; content oracle on both outcomes (accepted: delivered once; rejected: nothing from the attempt reaches the application, the client restarts on fresh streams), no flow-control error between honest peers, completion'),
